@@ -24,16 +24,27 @@ def _(self, state, *args, context=None, **kwargs):
     ensures(state_wf(result.metadata), "a-state-made-by-State()")
 
 
-@assumed("liquer.context.MetadataContextMixin.error", params=dict(self=CX, message=Str, position=Any, query=Opt(Str), traceback=Opt(Str)), returns=CX)
+@assumed("liquer.context.MetadataContextMixin.log_dict", params=dict(self=CX, d=Any), returns=CX)
+def _(self, d):
+    """appends the entry to the log, writes the metadata, tells the parent context; touches no field of the model"""
+    ensures(result is self, "returns-the-context")
+
+
+_OP_LOG = {"error": NoneT, "to_dict": Any}      # logger.error, Position.to_dict
+
+
+@contract("liquer.context.MetadataContextMixin.error", params=dict(self=CX, message=Str, position=Any, query=Opt(Str), traceback=Opt(Str)), returns=CX,
+          opaque=_OP_LOG)
 def _(self, message, position=None, query=None, traceback=None):
     modifies(self.is_error, self.status)
-    ensures(self.is_error and self.status == "error" and result is self)
+    ensures(self.is_error and self.status == "error" and result is self, "an-error-marks-the-context:flag-and-status")
 
 
-@assumed("liquer.context.MetadataContextMixin.exception", params=dict(self=CX, message=Str, traceback=Str, position=Any, query=Opt(Str)), returns=CX)
+@contract("liquer.context.MetadataContextMixin.exception", params=dict(self=CX, message=Str, traceback=Str, position=Any, query=Opt(Str)), returns=CX,
+          opaque=_OP_LOG)
 def _(self, message, traceback, position=None, query=None):
     modifies(self.is_error, self.status)
-    ensures(self.is_error and self.status == "error" and result is self)
+    ensures(self.is_error and self.status == "error" and result is self, "an-exception-marks-the-context:flag-and-status")
 
 
 @assumed("liquer.context.Context.evaluate_parameter", params=dict(self=CX, p=Any, action=Ref("ActionRequest")), returns=Any)
@@ -110,8 +121,8 @@ def _(self, state, action, extra_parameters=None, cache=None):
 prop("C05", fucs=["liquer.context.Context.evaluate_action"])
 prop("C09", fucs=["liquer.context.Context.evaluate_action"])
 prop("C04", fucs=["liquer.context.Context.evaluate_action"])
-prop("C06", fucs=["liquer.context.Context.evaluate_action"])
-prop("C18", fucs=["liquer.context.Context.evaluate_action"])
+prop("C06", fucs=["liquer.context.Context.evaluate_action", "liquer.context.MetadataContextMixin.error", "liquer.context.MetadataContextMixin.exception"])
+prop("C18", fucs=["liquer.context.Context.evaluate_action", "liquer.context.MetadataContextMixin.error", "liquer.context.MetadataContextMixin.exception"])
 
 # cache transparency also needs the in-memory cache to keep and hand out its own copies (a result mutated by the caller after
 # evaluate() must not change what a later evaluation is served): the ownership obligations of C10, on the same source
